@@ -56,6 +56,7 @@ ASSUMPTIONS = ["integer time index (positions/labels); datetime/period indexes o
                "observations = the y and X handed to fit/update; the exogenous rows handed to predict are by design future-dated and are not counted as leaked observations"]
 RULE = ("exhaustive small scope over splitter kind x fh x window x step x strategy x X/no X x return_data for 3<=n<=7 (quick: seed-rotated 1/23 slice; n=8,9 sampled 2/5 in thorough), metric rotated, "
         "(feasible window configurations all, infeasible ones 1/5) + random series up to n=120 with gapped / shifted labels + failing-forecaster histories "
+        "+ series of dtype float64 / float32 / int64 / int32 (whole numbers for the integer dtypes) and exogenous frames of dtype float64 / float32 / int64 in every evaluate stream "
         "+ forecaster instances that are not fresh (fitted/updated/predicted on earlier, later or overlapping data, or evaluated before with another splitter/series) "
         "+ malformed arguments + direct _split calls + an oracle-only stream with sktime's NaiveForecaster and metric objects; "
         "distinct by driver line; non-trivial = evaluate returned a table with at least one row")
@@ -237,11 +238,13 @@ def make_cv(cv):
 
 
 def make_data(c):
-    y = pd.Series(np.array(c["yv"], dtype="float64"), index=pd.Index(np.array(c["yl"], dtype="int64")))
+    """`ydt` / `xdt` = dtype of the series / of the exogenous frame (float64 when absent); the values of a case with an
+    integer dtype are whole numbers, those of a float32 case are exactly representable"""
+    y = pd.Series(np.array(c["yv"], dtype="float64").astype(c.get("ydt") or "float64"), index=pd.Index(np.array(c["yl"], dtype="int64")))
     X = None
     if c.get("x") is not None:
         xl = c.get("xl") or c["yl"]
-        rows = np.array(c["x"], dtype="float64").reshape(len(xl), -1)
+        rows = np.array(c["x"], dtype="float64").reshape(len(xl), -1).astype(c.get("xdt") or "float64")
         X = pd.DataFrame(rows, index=pd.Index(np.array(xl, dtype="int64")), columns=["c%d" % j for j in range(rows.shape[1])])
     return y, X
 
@@ -782,12 +785,14 @@ def features(c, out):
     if c["op"] == "lib":
         return ["op=lib", "lib-prior-state=" + ("fresh" if c.get("pre") is None else "evaluated-before" if c["pre"][0] == "eval" else "fitted-on-other-data"),
                 "lib-initial_window=" + ("yes" if c["cv"][0] == "s" and c["cv"][4] is not None else "no"),
+                "lib-y-dtype=" + (c.get("ydt") or "float64"),
                 "lib-forecaster=naive-" + c["fc"], "lib-metric=" + c["met"], "lib-strategy=" + c["strat"],
                 "lib-result=" + ("table" if out.startswith("err=none") else out.split(" ")[0])]
     d = _fields(out)
     f = ["op=eval", "cv=" + c["cv"][0], "strategy=" + str(c["strat"]), "metric=" + c["met"], "X=" + ("yes" if c.get("x") is not None else "no"),
          "return_data=%s" % c["rd"], "result=" + ("table" if d["err"] == "none" else d["err"]), "fail=" + ("no" if c.get("fail") is None else "injected"),
          "initial_window=" + ("yes" if c["cv"][0] == "s" and c["cv"][4] is not None else "no"),
+         "y-dtype=" + (c.get("ydt") or "float64"), "X-dtype=" + ("none" if c.get("x") is None else (c.get("xdt") or "float64")),
          "prior-state=" + ("fresh" if c.get("pre") is None else "evaluated-before" if c["pre"][0] == "eval" else "fitted-on-other-data")]
     if d["err"] == "none":
         n = len(parse_ints_(d["len"]))
@@ -810,11 +815,23 @@ def _labels(rng, n, mode):
     return out
 
 
-def _values(rng, n):
+YDTYPES = ["float64", "float64", "float64", "int64", "int64", "int32", "float32"]
+XDTYPES = ["float64", "float64", "int64", "float32"]
+
+
+def _is_int(dt):
+    return dt is not None and dt.startswith(("int", "uint"))
+
+
+def _values(rng, n, dt=None):
+    if _is_int(dt):
+        return [float(rng.randrange(1, 129)) for _ in range(n)]
     return [rng.randrange(1, 129) / 8 for _ in range(n)]
 
 
-def _xrows(rng, n, ncol):
+def _xrows(rng, n, ncol, dt=None):
+    if _is_int(dt):
+        return [[float(rng.randrange(0, 33)) for _ in range(ncol)] for _ in range(n)]
     return [[rng.randrange(0, 33) / 4 for _ in range(ncol)] for _ in range(n)]
 
 
@@ -851,8 +868,10 @@ def _gen_pre(rng, yl):
 
 
 def _mk(rng, cv, n, strat, met, rd, x, lab="zero", fp=None, fail=None):
+    ydt, xdt = rng.choice(YDTYPES), rng.choice(XDTYPES)
     c = {"op": "eval", "cv": cv, "strat": strat, "met": met, "rd": rd, "fp": fp, "fail": fail, "pre": None,
-         "yl": _labels(rng, n, lab), "yv": _values(rng, n), "x": None if not x else _xrows(rng, n, x), "xl": None}
+         "yl": _labels(rng, n, lab), "yv": _values(rng, n, ydt), "x": None if not x else _xrows(rng, n, x, xdt), "xl": None,
+         "ydt": ydt, "xdt": xdt if x else None}
     return c
 
 
@@ -981,9 +1000,10 @@ def gen_cases(tier, rng):
         step = rng.randrange(1, 5)
         cv = rng.choice([["s", fh, wl, step, None, True], ["e", fh, wl, step, True], ["w", fh, None], ["s", fh, wl, step, wl + 2, True],
                          ["s", fh, wl, step, wl + rng.randrange(1, 4), True], ["c", sorted(rng.sample(range(2, n - 4), 2)), fh, wl]])
-        cases.append({"op": "lib", "fc": rng.choice(["last", "mean"]), "cv": cv, "strat": rng.choice(["refit", "update"]),
-                      "met": rng.choice(["default", "mape"]), "yl": _labels(rng, n, rng.choice(["zero", "shift"])), "yv": _values(rng, n),
-                      "x": None, "xl": None, "pre": None})
+        ydt = rng.choice(YDTYPES)
+        cases.append({"op": "lib", "fc": rng.choice(["last", "mean", "mean", "drift"]), "cv": cv, "strat": rng.choice(["refit", "update"]),
+                      "met": rng.choice(["default", "mape"]), "yl": _labels(rng, n, rng.choice(["zero", "shift"])), "yv": _values(rng, n, ydt),
+                      "x": None, "xl": None, "pre": None, "ydt": ydt})
         if rng.random() < 0.5:
             cases[-1]["pre"] = _gen_pre(rng, cases[-1]["yl"])
     # ---- direct `_split` calls
@@ -1018,6 +1038,8 @@ def shrink(c):
             if m >= 3:
                 yield dict(c, yl=c["yl"][:m], yv=c["yv"][:m], x=None if c.get("x") is None else c["x"][:m],
                            xl=None if c.get("xl") is None else c["xl"][:m])
+    if (c.get("ydt") or "float64") != "float64" or (c.get("xdt") or "float64") != "float64":
+        yield dict(c, ydt="float64", xdt="float64" if c.get("x") is not None else None)
     if c.get("pre") is not None:
         yield dict(c, pre=None)
         if c["pre"][0] == "ops" and len(c["pre"][1]) > 1:
@@ -1044,5 +1066,7 @@ def shrink(c):
         if cv[0] == "s" and cv[4] is not None:
             cv2 = list(cv); cv2[4] = None
             yield dict(c, cv=cv2)
-    if c["yv"] != [float(i + 1) for i in range(n)]:
+    if c["yv"] != [float(i + 1) for i in range(n)] and not (_is_int(c.get("ydt")) and n > 3 and c["yv"] == [float((7 * i) % 5 + 1) for i in range(n)]):
+        if _is_int(c.get("ydt")):     # keep whole numbers, but not a straight line (forecasts stay fractional)
+            yield dict(c, yv=[float((7 * i) % 5 + 1) for i in range(n)])
         yield dict(c, yv=[float(i + 1) for i in range(n)])
